@@ -786,6 +786,40 @@ fn compute_time_weighted_apy(
     acc / total_seconds
 }
 
+/// Public entries to the private reward functions, used only by the solver-based checks in
+/// `/verif` (`--cfg gmsol_verif`).
+#[cfg(gmsol_verif)]
+pub mod verif_hooks {
+    /// Number of APY buckets.
+    pub const APY_BUCKETS: usize = super::APY_BUCKETS;
+    /// Seconds per week.
+    pub const SECONDS_PER_WEEK: u128 = super::SECONDS_PER_WEEK;
+
+    /// See `compute_time_weighted_apy`.
+    pub fn compute_time_weighted_apy(
+        stake_start_time: i64,
+        now: i64,
+        apy_gradient: &[u128; APY_BUCKETS],
+    ) -> u128 {
+        super::compute_time_weighted_apy(stake_start_time, now, apy_gradient)
+    }
+
+    /// See `calculate_gt_reward_amount`.
+    pub fn calculate_gt_reward_amount(
+        staked_value_usd: u128,
+        duration_seconds: i64,
+        gt_apy_per_sec: u128,
+        inv_cost_integral: u128,
+    ) -> anchor_lang::Result<u64> {
+        super::calculate_gt_reward_amount(
+            staked_value_usd,
+            duration_seconds,
+            gt_apy_per_sec,
+            inv_cost_integral,
+        )
+    }
+}
+
 #[derive(Accounts)]
 pub struct Initialize<'info> {
     #[account(
